@@ -79,6 +79,23 @@ impl TinyLFU {
     }
 }
 
+#[cfg(cached_verif)]
+impl TinyLFU {
+    pub(crate) fn verif_sketch_estimate(&self, key_hash: KeyHash) -> FrequencyEstimate { self.key_access_frequency.estimate(key_hash) }
+
+    pub(crate) fn verif_doorkeeper_has(&self, key_hash: KeyHash) -> bool { self.door_keeper.has(&key_hash) }
+
+    pub(crate) fn verif_total_increments(&self) -> u64 { self.total_increments }
+
+    pub(crate) fn verif_reset_counters_at(&self) -> u64 { self.reset_counters_at }
+
+    pub(crate) fn verif_total_counters(&self) -> u64 { self.key_access_frequency.verif_total_counters() }
+
+    pub(crate) fn verif_positions(&self, key_hash: KeyHash) -> [u64; 4] { self.key_access_frequency.verif_positions(key_hash) }
+
+    pub(crate) fn verif_rows(&self) -> Vec<Vec<u8>> { self.key_access_frequency.verif_rows() }
+}
+
 #[cfg(test)]
 mod tests {
     use crate::cache::lfu::tiny_lfu::TinyLFU;
